@@ -4,13 +4,17 @@ import NeumannModel.Vault.AtRest
   ONLY property statements and their non-vacuity examples; helpers are in `Bfs.lean` / `Lemmas.lean` /
   `Inv.lean` / `AtRest.lean`.
 
-  The model is the code AFTER 4e577a4d (expired TTL grants are dropped on every authorisation path) and
-  31ebe3e9 (no `_secret_key` in the secret node record).  What holds, what does not:
+  The model is the code AFTER 4e577a4d (expired TTL grants are dropped on every authorisation path),
+  31ebe3e9 (no `_secret_key` in the secret node record) and ad58047e (a secret's graph-node key presented as
+  the requester is refused by every authorisation entry point).  What holds, what does not:
     * the graph search is sound and complete (`bfs_level_is_max_over_paths`);
     * FULL: for every configuration, history, time and guarded operation, success of a non-root requester
       rests on a grant edge that is unrevoked AND unexpired, reachable within the horizon and of sufficient
       attenuated level (`access_requires_live_grant`, `…_prestate`); revoke / expiry / delete act at once;
     * the code before 4e577a4d violated exactly this (`access_requires_live_grant_old_witness`);
+    * a requester string that is a secret's graph-node key (`vault_secret:…`) gets nothing from any entry point,
+      in every state (`secret_node_key_is_no_identity`); before ad58047e it got Admin on its own secret through
+      the `source == target` shortcut of the path search (`secret_node_key_as_identity_old_witness`);
     * secret VALUES never reach the store / audit log in readable form (`at_rest_no_plain_value`);
     * secret NAMES: clean in the secret node, `_vk:`, `_vs:` and audit records
       (`at_rest_no_plain_name_partial`), still readable in the persisted TTL tracker and the delegation
@@ -155,9 +159,7 @@ theorem access_requires_grant_any_state_partial (s : State) (t : Nat) (op : Op)
       obtain ⟨sec, hsec, rfl⟩ := hx
       obtain ⟨p, hp, hle⟩ := delegCheck_ok (delegate_ok hok) sec hsec
       have hr' : parent ≠ root := hr
-      unfold State.getPermission at hp
-      rw [if_neg hr'] at hp
-      obtain ⟨l', e, hw, hl', _⟩ := perm_some_justified hp
+      obtain ⟨l', e, hw, hl', _⟩ := perm_some_justified (getPermission_some hp hr').2
       exact ⟨l', e, hw, Nat.le_trans hle hl', trivial⟩
     | getVersion req sec ver =>
       simp only [needs, List.mem_singleton] at hx; subst hx
@@ -182,7 +184,8 @@ theorem access_requires_grant_any_state_partial (s : State) (t : Nat) (op : Op)
       · exact guarded_justified hok hr
       · -- the inner `set` ran on the state the outer check left (= `cleanup t`) and succeeded
         have h2 := (guarded_ok hok).2
-        rw [h2, checkAccess_fst, if_neg (show req ≠ root from hr)] at hok
+        have h1 := (guarded_ok hok).1
+        rw [h2, checkAccess_fst_ok h1 (show req ≠ root from hr)] at hok
         split at hok
         · cases hok
         · split at hok
@@ -326,6 +329,142 @@ theorem access_requires_live_grant_old_witness :
 example : (step (run (init) [(0, .set 0 1 7 3), (0, .grantTtl 0 1 1 .write 5)]) 10 (.set 1 1 8 3)).2 = .err .denied := by
   decide
 
+/-! ## a secret's graph-node key is not an identity (ad58047e) -/
+
+/-- FULL, every state, every time: a requester STRING that is the graph key of a secret's node
+    (`vault_secret:…` — of ANY secret, existing or not, in particular of the very secret asked for, where the path
+    search answers Admin through `source == target` without looking at a grant) gets nothing from any entry point:
+    `check_access_with_permission` answers AccessDenied and leaves the state untouched, `has_access` is false,
+    `get_permission` is None; hence every operation that checks a level for it (`needs`: read, old-version read,
+    version count, wrap, transit, changelog, get/clear expiration, overwrite, rotate, rollback, delete, grant,
+    grant-with-ttl, revoke, delegate of at least one secret) fails, `list` returns no name, every `batch_get` entry
+    is AccessDenied and every `batch_set` entry is an error. -/
+theorem secret_node_key_is_no_identity (s : State) (t req : Nat) (hk : isNodeKey req = true) :
+    (∀ sec need, s.checkAccess t req sec need = (s, .error .denied)) ∧
+    (∀ sec, s.hasAccess t req sec = false ∧ s.getPermission t req sec = none) ∧
+    (∀ op, ∀ x ∈ needs op, x.1 = req → (step s t op).2.isOk = false) ∧
+    (∀ p, (step s t (.list req p)).2 = .names []) ∧
+    (∀ secs, ∃ items, (step s t (.batchGet req secs)).2 = .items items ∧ ∀ i ∈ items, i = .err .denied) ∧
+    (∀ entries, ∃ items, (step s t (.batchSet req entries)).2 = .items items ∧ ∀ i ∈ items, ∃ e, i = .err e) := by
+  refine ⟨fun sec need => checkAccess_key s t req sec need hk,
+          fun sec => ⟨hasAccess_key s t req sec hk, getPermission_key s t req sec hk⟩, ?_, ?_, ?_, ?_⟩
+  · intro op x hx hreq
+    cases op with
+    | set r sec val size =>
+      simp only [needs, List.mem_singleton] at hx; subst hx; subst hreq
+      obtain ⟨e, he⟩ := set_key s t r sec val size hk
+      simp only [step, he]; rfl
+    | get r sec =>
+      simp only [needs, List.mem_singleton] at hx; subst hx; subst hreq
+      simp only [step, State.get, guarded_key _ t r sec _ _ hk]; rfl
+    | rotate r sec val size =>
+      simp only [needs, List.mem_singleton] at hx; subst hx; subst hreq
+      simp only [step, State.rotate, guarded_key _ t r sec _ _ hk]; rfl
+    | delete r sec =>
+      simp only [needs, List.mem_singleton] at hx; subst hx; subst hreq
+      simp only [step, State.delete, guarded_key _ t r sec _ _ hk]; rfl
+    | grant r ent sec l =>
+      simp only [needs, List.mem_singleton] at hx; subst hx; subst hreq
+      simp only [step, State.grant, State.grantCore, guarded_key _ t r sec _ _ hk]; rfl
+    | grantTtl r ent sec l ttl =>
+      simp only [needs, List.mem_singleton] at hx; subst hx; subst hreq
+      simp only [step, State.grantTtl, State.grantCore, guarded_key _ t r sec _ _ hk]; rfl
+    | revoke r ent sec =>
+      simp only [needs, List.mem_singleton] at hx; subst hx; subst hreq
+      simp only [step, State.revoke, guarded_key _ t r sec _ _ hk]; rfl
+    | delegate parent child secs l ttl =>
+      simp only [needs, List.mem_map] at hx
+      obtain ⟨sec, hsec, rfl⟩ := hx
+      simp only at hreq; subst hreq
+      cases secs with
+      | nil => cases hsec
+      | cons a rest =>
+        simp only [step, State.delegate, State.delegCheck, getPermission_key s t parent a hk]; rfl
+    | getVersion r sec ver =>
+      simp only [needs, List.mem_singleton] at hx; subst hx; subst hreq
+      simp only [step, State.getVersion, guarded_key _ t r sec _ _ hk]; rfl
+    | versions r sec =>
+      simp only [needs, List.mem_singleton] at hx; subst hx; subst hreq
+      simp only [step, State.versionCount, guarded_key _ t r sec _ _ hk]; rfl
+    | rollback r sec ver =>
+      have : r = req := by
+        simp only [needs, List.mem_cons, List.mem_nil_iff, or_false] at hx
+        rcases hx with rfl | rfl <;> exact hreq
+      subst this
+      simp only [step, State.rollback, guarded_key _ t r sec _ _ hk]; rfl
+    | wrap r sec =>
+      simp only [needs, List.mem_singleton] at hx; subst hx; subst hreq
+      simp only [step, State.wrap, guarded_key _ t r sec _ _ hk]; rfl
+    | probe r sec need me =>
+      simp only [needs, List.mem_singleton] at hx; subst hx; subst hreq
+      simp only [step, State.probe, guarded_key _ t r sec _ _ hk]; rfl
+    | list _ _ => simp only [needs] at hx; cases hx
+    | undelegate _ _ => simp only [needs] at hx; cases hx
+    | addMember _ _ => simp only [needs] at hx; cases hx
+    | delMember _ _ => simp only [needs] at hx; cases hx
+    | addEdge _ _ _ => simp only [needs] at hx; cases hx
+    | batchGet _ _ => simp only [needs] at hx; cases hx
+    | batchSet _ _ => simp only [needs] at hx; cases hx
+    | unwrap _ => simp only [needs] at hx; cases hx
+    | undelegateCascade _ _ => simp only [needs] at hx; cases hx
+    | reopen => simp only [needs] at hx; cases hx
+  · intro p
+    simp only [step, State.list, hasAccess_key _ t req _ hk, Bool.and_false]
+    have : ∀ l : List SecretMeta, l.filter (fun _ => false) = [] := by
+      intro l; induction l with
+      | nil => rfl
+      | cons a l ih => rw [List.filter_cons]; exact ih
+    rw [this]; rfl
+  · intro secs
+    refine ⟨_, rfl, fun i hi => ?_⟩
+    obtain ⟨sec, _, rfl⟩ := List.mem_map.mp hi
+    rw [checkAccess_key _ t req sec .read hk]
+  · intro entries
+    simp only [step, State.batchSet]
+    split
+    · exact ⟨[], rfl, fun i hi => nomatch hi⟩
+    · refine ⟨_, rfl, fun i hi => ?_⟩
+      rw [batchSet_fold_items, List.nil_append] at hi
+      exact batchItems_key hk entries s i hi
+
+/-- non-vacuity: with secret 1 stored (value 7) and no grant to anybody, the requester `vault_secret:<obf 1>` is
+    denied on every path — on its own secret, on another one, and as the key of a secret that does not exist —
+    while root still reads the secret and an identity holding a grant is served -/
+example :
+    let s := run (init) [(0, .set 0 1 7 3), (0, .set 0 2 8 3), (0, .grant 0 1 1 .read)]
+    isNodeKey (nodeKeyReq 1) = true ∧ reqNode (nodeKeyReq 1) = secNode 1 ∧
+    (step s 1 (.get (nodeKeyReq 1) 1)).2 = .err .denied ∧ (step s 1 (.get (nodeKeyReq 1) 2)).2 = .err .denied ∧
+    (step s 1 (.get (nodeKeyReq 9) 1)).2 = .err .denied ∧
+    (step s 1 (.rotate (nodeKeyReq 1) 1 9 3)).2 = .err .denied ∧ (step s 1 (.delete (nodeKeyReq 1) 1)).2 = .err .denied ∧
+    (step s 1 (.grant (nodeKeyReq 1) 2 1 .admin)).2 = .err .denied ∧
+    (step s 1 (.delegate (nodeKeyReq 1) 2 [1] .read none)).2 = .err .denied ∧
+    (step s 1 (.list (nodeKeyReq 1) .all)).2 = .names [] ∧
+    (step s 1 (.batchGet (nodeKeyReq 1) [1, 2])).2 = .items [.err .denied, .err .denied] ∧
+    (step s 1 (.batchSet (nodeKeyReq 1) [(1, 9, 3)])).2 = .items [.err .denied] ∧
+    s.getPermission 1 (nodeKeyReq 1) 1 = none ∧
+    (step s 1 (.get 0 1)).2 = .value 7 ∧ (step s 1 (.get 1 1)).2 = .value 7 := by decide
+
+/-- the code BEFORE ad58047e violated the access property: root stores secret 1 and grants nothing; the requester
+    string `vault_secret:<obf 1>` names the secret's own node, the path search answered Admin through
+    `source == target`, and the old entry points therefore reported Admin, served the read and let the node key
+    grant Admin to identity 2 — although the only VAULT_ACCESS edge in the graph is root's own creation edge -/
+theorem secret_node_key_as_identity_old_witness :
+    ∃ (h : List (Nat × Op)) (t : Nat),
+      (∀ e ∈ (run (init) h).graph, e.src = entNode root) ∧
+      (run (init) h).getPermissionKeyOld t (nodeKeyReq 1) 1 = some .admin ∧
+      ((run (init) h).getKeyOld t (nodeKeyReq 1) 1).2 = .value 7 ∧
+      ((run (init) h).grantKeyOld t (nodeKeyReq 1) 2 1 .admin).2 = .ok ∧
+      (step ((run (init) h).grantKeyOld t (nodeKeyReq 1) 2 1 .admin).1 t (.delete 2 1)).2 = .ok :=
+  ⟨[(0, .set 0 1 7 3)], 1, by decide, by decide, by decide, by decide, by decide⟩
+
+/-- … while the repaired entry points refuse in the same state at the same time; the old check was NOT wrong for a
+    node key of another secret (no shortcut there): the defect was exactly `source == target` -/
+example :
+    let s := run (init) [(0, .set 0 1 7 3), (0, .set 0 2 8 3)]
+    (step s 1 (.get (nodeKeyReq 1) 1)).2 = .err .denied ∧ s.getPermission 1 (nodeKeyReq 1) 1 = none ∧
+    (step s 1 (.grant (nodeKeyReq 1) 2 1 .admin)).2 = .err .denied ∧
+    (s.getKeyOld 1 (nodeKeyReq 1) 2).2 = .err .denied ∧ s.getPermissionKeyOld 1 (nodeKeyReq 2) 1 = none := by decide
+
 /-! ## granting -/
 
 /-- FULL: granting (with or without TTL) and revoking require a LIVE Admin-level grant on the secret — for every
@@ -414,9 +553,7 @@ theorem revoke_expire_delete_immediate :
         (by rw [← hc]) hr).2
       exact hdead (hj.weaken (fun e he _ => hlive e he)).of_cleanup
     · intro p hp
-      unfold State.getPermission at hp
-      rw [if_neg hr] at hp
-      obtain ⟨l', e, hw, hl', _⟩ := perm_some_justified hp
+      obtain ⟨l', e, hw, hl', _⟩ := perm_some_justified (getPermission_some hp hr).2
       apply Nat.lt_of_not_le
       intro hle
       have hj : Justified ((run (init pol a b c) h).cleanup t) r sec need (LiveAt t) :=
